@@ -7,16 +7,25 @@ def optN(x):
     return "None" if x is None else f"(Some {x})"
 
 
+def is_b(c):
+    return len(c) > 5 and c[5] == "B"
+
+
+def spur(c):
+    """instants of additional (spurious) polls by the driving task"""
+    return list(c[5][1:]) if len(c) > 5 and isinstance(c[5], list) else []
+
+
 class C19(Plugin):
     prop = "C19"
     harness_bin = "timeout"
     coq_targets = ("timeout/Corr.vo",)
-    header = "From HD Require Import common.Base timeout.Model timeout.Spec timeout.Corr.\nOpen Scope N_scope."
+    header = "From HD Require Import common.Base timeout.Model timeout.Spec timeout.Sched timeout.Corr.\nOpen Scope N_scope."
     check_fn = "check_all"
     shard = 400
     impl_jobs = 4
     design_ref = "DESIGN.md 4/C19, 3.8"
-    rule = ("case = (duration d, delay before the first poll p0, inner completion time ti or never, inner result, handover: first poll by a throw-away waker and then driven by another task) through the "
+    rule = ("case = (duration d, delay before the first poll p0, inner completion time ti or never, inner result, handover: first poll by a throw-away waker and then driven by another task, spurious polls: further instants, in any order and number, at which the driving task polls the future although neither the inner future nor the deadline woke it) through the "
             "public TimeoutLayer around a scripted inner service under tokio's paused clock (and, for a grid of durations incl. zero, through Client::builder().with_timeout over a pooled duplex transport: result and instant only); observed: result, resolution time, "
             "instant at which the inner future was dropped; non-trivial = ti within 2 ms of d or p0 > 0; distinct = distinct tuples")
     trusted = ["modelled (not verified): Timeout::call, TimeoutFuture::poll", "oracle O4: tokio paused clock at 1 ms granularity"]
@@ -51,17 +60,27 @@ class C19(Plugin):
             d = rng.randint(0, 50)
             ti = rng.choice([None, d, d + 1, max(0, d - 1), rng.randint(0, 80)])
             cases.append([d, rng.choice([0, 0, 0, rng.randint(0, 60)]), ti, [rng.choice("OE"), rng.randint(0, 9)], rng.choice([0, 0, 1])])
-        return cases, {"rule": f"exhaustive grid d x ti x p0 x result ({len(grid_d) * len(grid_ti) * len(grid_p0) * 2} points) + {n} random", "exhaustive": False}
+        # spurious polls: the model side is the poll-by-poll run_sched (Sched.v), equal to the closed form for every list
+        for d, ti, p0 in itertools.product([0, 1, 5, 10], [None, 0, 4, 5, 6, 10, 11], [0, 3]):
+            for sp in ([1], [d], [d + 1, 2], [3, 3, 7, 2], [ti or 0, d, 9, 1]):
+                cases.append([d, p0, ti, ["O", 7], 0, ["S"] + sp])
+        for _ in range(n // 2):
+            d = rng.randint(0, 50)
+            ti = rng.choice([None, d, d + 1, max(0, d - 1), rng.randint(0, 80)])
+            sp = [rng.choice([d, d + 1, max(0, d - 1), rng.randint(0, 70), (ti or 0)]) for _ in range(rng.randint(1, 6))]
+            cases.append([d, rng.choice([0, 0, rng.randint(0, 60)]), ti, [rng.choice("OE"), rng.randint(0, 9)], rng.choice([0, 0, 1]), ["S"] + sp])
+        return cases, {"rule": f"exhaustive grid d x ti x p0 x result ({len(grid_d) * len(grid_ti) * len(grid_p0) * 2} points) + {n} random + 280 grid and {n // 2} random cases with spurious polls", "exhaustive": False}
 
     def impl_line(self, c):
         d, p0, ti, r = c[:4]
-        return f"{d} {p0} {'-' if ti is None else ti} {r[0]}{r[1]} {c[4] if len(c) > 4 else 0}" + (" B" if len(c) > 5 else "")
+        tail = " B" if is_b(c) else (" S" + ",".join(str(x) for x in spur(c)) if spur(c) else "")
+        return f"{d} {p0} {'-' if ti is None else ti} {r[0]}{r[1]} {c[4] if len(c) > 4 else 0}" + tail
 
     def parse_obs(self, c, line):
         f = line.split()
         if f[0] == "PANIC":
             return {"res": "PANIC", "at": None, "dropped": None}
-        b = len(c) > 5      # Builder cases: the drop instant of the inner work is not observable; only result and instant are compared
+        b = is_b(c)      # Builder cases: the drop instant of the inner work is not observable; only result and instant are compared
         if f[0] == "INNER":
             return {"res": f[1], "at": int(f[2]), "dropped": int(f[2]) if b else (None if f[3] == "-" else int(f[3]))}
         at = None if f[1] == "-" else int(f[1])
@@ -69,7 +88,8 @@ class C19(Plugin):
 
     def coq_case(self, c):
         d, p0, ti, r = c[:4]
-        return f"mkT {d} {p0} {optN(ti)} ({'IOk' if r[0] == 'O' else 'IErr'} {r[1]}) {'true' if len(c) > 4 and c[4] else 'false'}"
+        return (f"(mkT {d} {p0} {optN(ti)} ({'IOk' if r[0] == 'O' else 'IErr'} {r[1]}) {'true' if len(c) > 4 and c[4] else 'false'}, "
+                f"[{'; '.join(str(x) for x in spur(c))}])")
 
     def coq_obs(self, o):
         r = o["res"]
@@ -92,7 +112,14 @@ class C19(Plugin):
     def shrinks(self, c):
         d, p0, ti, r = c[:4]
         h = c[4] if len(c) > 4 else 0
-        if len(c) > 5:
+        if is_b(c):
+            return
+        sp = spur(c)
+        if sp:
+            yield [d, p0, ti, r, h]
+            for i in range(len(sp)):
+                if len(sp) > 1:
+                    yield [d, p0, ti, r, h, ["S"] + sp[:i] + sp[i + 1:]]
             return
         if h:
             yield [d, p0, ti, r, 0]
@@ -104,7 +131,9 @@ class C19(Plugin):
             yield [d, p0, ti - 1, r, h]
 
     def histogram(self, cases, obss):
-        h = {"result": {}, "handover": sum(1 for c in cases if isinstance(c, list) and len(c) > 4 and c[4])}
+        h = {"result": {}, "handover": sum(1 for c in cases if isinstance(c, list) and len(c) > 4 and c[4]),
+             "with_spurious_polls": sum(1 for c in cases if isinstance(c, list) and spur(c)),
+             "spurious_polls_total": sum(len(spur(c)) for c in cases if isinstance(c, list))}
         for o in obss:
             k = o["res"][0] if o["res"][0] in "OE" else o["res"]
             h["result"][k] = h["result"].get(k, 0) + 1
